@@ -21,8 +21,8 @@ CHECK = {
                 "the validator or only served by its oracle); then 0..2 mutations: sibling/root byte flips, slot arithmetic incl. positions "
                 "beyond the list and below the Capella start, header field or number changes (other era, +-1, +-8192), truncation/extension, "
                 "sibling swap, neighbour's branch, accumulator truncated/shifted/flipped, proof built with another era's layout. "
-                "Every case is judged by the reference (accept <=> reference verifies); a panic is a violation. Non-trivial = every case "
-                "(each reaches the reference verdict); classes record honest/era and the reference's rejection reason per era. A second check uses the "
+                "Every case is judged by the reference (accept <=> reference verifies); a panic is a violation. Non-trivial = an honest proof, or a mutated one whose reference verdict was reached by a hash or position comparison "
+                "(a proof rejected for its size alone is only counted); classes record honest/era and the reference's rejection reason per era. A second check uses the "
                 "repository's own prover as the honest party: chains of 1..8192 real headers through history.Accumulator, proofs by "
                 "history.BuildProof for the first, last and random records, each verified by the code and by the reference.",
         "assumptions": [
